@@ -188,7 +188,10 @@ def instantiate(interp, sp, name, shared, sizes=None):
         o = SObj(sp.cls, {})
         shared[name] = o
         for k, v in sp.attrs.items():
-            o.attrs[k] = instantiate(interp, v, name + '.' + k, shared)
+            if isinstance(v, S.BoundTo):
+                o.attrs[k] = BoundMethod(o, v.method)
+            else:
+                o.attrs[k] = instantiate(interp, v, name + '.' + k, shared)
         return o
     if isinstance(sp, S.DictT):
         d = {}
@@ -319,6 +322,8 @@ def spec_matches(sp, val):
             (sp.dtype == val.dtype or (sp.dtype == 'real' and val.dtype == 'int'))
     if isinstance(sp, S.ViewOf):
         return isinstance(val, SArr)
+    if isinstance(sp, S.BoundTo):
+        return isinstance(val, BoundMethod)
     if isinstance(sp, S.Obj):
         if not isinstance(val, SObj):
             return False
@@ -762,6 +767,8 @@ def frame_obligations(interp, params_env, old_env, modifies, label):
         else:
             if now is not old and now != old:
                 if isinstance(now, Closure) and isinstance(old, Closure):
+                    return
+                if isinstance(now, BoundMethod) and isinstance(old, BoundMethod) and now.name == old.name:
                     return
                 if isinstance(now, Opaque) and isinstance(old, Opaque) and now.name == old.name:
                     return
